@@ -532,6 +532,8 @@ def gen_mean_width(rng, i):
         pts = rng.normal(0, 1, (int(rng.integers(1, 20)), 1)) * float(np.exp(rng.uniform(-2, 2)))
     else:
         npts = int(rng.integers(1, 40)) if rng.integers(8) == 0 else int(rng.integers(3, 40))
+        if i % 25 == 11:
+            npts = int([1025, 1500, 2049, 3000, 5000][rng.integers(5)])     # large clouds (internal chunking / fast paths)
         pts = rng.normal(0, 1, (npts, d)) * np.exp(rng.uniform(-1, 1, d)) * float(np.exp(rng.uniform(-2, 2)))
         pts = pts @ _orth(rng, d).T
     pts = pts[rng.permutation(len(pts))]
